@@ -67,14 +67,28 @@ func (m *wireMon) checkPolicyImpl(X int, ti *tsnInfo) {
 	}
 }
 
-// lastFragmentEmitted: has the E fragment of the message been put on the wire yet?
+// lastFragmentEmitted: was the whole message on the wire when the chunk was transmitted the
+// time before (i.e. when the loss signal that caused this retransmission can have been
+// raised)? The library abandons a message only once all its fragments are in flight.
 func (m *wireMon) lastFragmentEmitted(X int, msg *msgRec) bool {
+	var first time.Duration = -1
 	for _, ti := range m.s[X].sent {
 		if ti.msg == msg && ti.e {
-			return true
+			first = ti.times[0]
 		}
 	}
-	return false
+	if first < 0 {
+		return false
+	}
+	// the chunk under judgement is the one whose times were just extended
+	for _, ti := range m.s[X].sent {
+		if ti.msg == msg && len(ti.times) >= 2 && ti.times[len(ti.times)-1] == m.w.now() {
+			if first > ti.times[len(ti.times)-2] {
+				return false
+			}
+		}
+	}
+	return true
 }
 
 // messageSkipped: every TSN the sender emitted for the message is covered by an emitted FORWARD-TSN.
